@@ -41,6 +41,9 @@ type Case struct {
 	Hits   []int          `json:"hits"`             // selectors of crash points to replay (quick)
 	After  []projsim.Op   `json:"after"`            // further operations before the final build
 	Only   *Hit           `json:"only,omitempty"`   // replay files: exactly this crash point
+	// DryFirst: the faulty build is the second run of one loaded project whose first run was a dry run
+	// (the REPL's run(dry_run=True) followed by run())
+	DryFirst bool `json:"dryfirst,omitempty"`
 	Forced bool           `json:"forced,omitempty"` // the faulty build is a forced one (build --always)
 }
 
@@ -286,7 +289,14 @@ func exec(c Case) (v ev.Verdict) {
 	if err != nil {
 		return ev.Verdict{Skip: "clone"}
 	}
-	cnt := counter.ChildBuild(projsim.BuildReq{Label: label, CountHits: true, Always: c.Forced, SaveJitter: true})
+	faulty := func(req projsim.BuildReq) projsim.BuildReq {
+		if c.DryFirst && !c.Forced {
+			req.DryRun = true
+			req.Steps = []projsim.Step{{Kind: "run", Real: true}}
+		}
+		return req
+	}
+	cnt := counter.ChildBuild(faulty(projsim.BuildReq{Label: label, CountHits: true, Always: c.Forced, SaveJitter: true}))
 	counter.Close()
 	if cnt.ExitCode != 0 || !cnt.OK() {
 		return ev.Failf("counting-run-failed", "the un-faulted counting run of %s failed: exit=%d load=%q run=%q %s", label, cnt.ExitCode, cnt.LoadErr, cnt.RunErr, cnt.Stderr)
@@ -348,9 +358,12 @@ func exec(c Case) (v ev.Verdict) {
 		if err != nil {
 			return ev.Verdict{Skip: "clone"}
 		}
-		res := sim.ChildBuild(projsim.BuildReq{Label: label, CrashSite: h.Site, CrashLabel: h.Label, CrashHit: h.N, Always: c.Forced, SaveJitter: true})
+		res := sim.ChildBuild(faulty(projsim.BuildReq{Label: label, CrashSite: h.Site, CrashLabel: h.Label, CrashHit: h.N, Always: c.Forced, SaveJitter: true}))
+		if c.DryFirst && !c.Forced {
+			run.Class("dry-run-then-real-run-on-one-project", 1)
+		}
 		where := fmt.Sprintf("crash at %s(%s)#%d in build of %s (forced=%v)", h.Site, h.Label, h.N, label, c.Forced)
-		sub := Case{M: c.M, Edits: c.Edits, FailT: -1, After: c.After, Only: &h, Forced: c.Forced}
+		sub := Case{M: c.M, Edits: c.Edits, FailT: -1, After: c.After, Only: &h, Forced: c.Forced, DryFirst: c.DryFirst}
 		if !res.Crashed {
 			// the point was not reached in this run (schedule-dependent ordering): not a fault
 			run.Class("crash-point-not-reached", 1)
@@ -408,6 +421,11 @@ func gen(t *rapid.T) Case {
 	}
 	c.Hits = rapid.SliceOfN(rapid.IntRange(0, 199), 4, 6).Draw(t, "hits")
 	c.Forced = rapid.IntRange(0, 3).Draw(t, "forced") == 3
+	c.DryFirst = rapid.IntRange(0, 4).Draw(t, "dryfirst") == 4
+	if c.DryFirst && !c.Forced {
+		// a reason to run that leaves no trace in the records: a generated file is gone
+		c.Edits = append(c.Edits, projsim.Op{Kind: "gen-del", T: rapid.IntRange(0, 11).Draw(t, "gendel")})
+	}
 	if c.Forced && rapid.Bool().Draw(t, "noedits") {
 		c.Edits = nil // a forced build of an unchanged tree: the option is the only reason to run
 	}
